@@ -364,6 +364,45 @@ func (f *Func) NilTest(cond ast.Expr) (x ast.Expr, nonNilOnTrue bool, ok bool) {
 	return x, be.Op == token.NEQ, true
 }
 
+// NilTestVia is NilTest that also understands a condition that is a boolean
+// variable (or its negation) whose only definition is a nil comparison
+// (`missing := x == nil; …; if missing {…}`): the edge then tells whether x was
+// nil where the variable was defined.
+func (f *Func) NilTestVia(cond ast.Expr) (x ast.Expr, nonNilOnTrue bool, ok bool) {
+	if x, nn, ok := f.NilTest(cond); ok {
+		return x, nn, true
+	}
+	cond = ast.Unparen(cond)
+	neg := false
+	if u, isNot := cond.(*ast.UnaryExpr); isNot && u.Op == token.NOT {
+		cond, neg = ast.Unparen(u.X), true
+	}
+	id, isID := cond.(*ast.Ident)
+	if !isID {
+		return nil, false, false
+	}
+	obj := f.ObjOf(id)
+	if obj == nil {
+		return nil, false, false
+	}
+	var def ast.Expr
+	n := 0
+	for _, w := range f.WritesIn(f.Top().Body, true) {
+		if wid, isW := ast.Unparen(w.LHS).(*ast.Ident); isW && f.ObjOf(wid) == obj {
+			n++
+			def = w.RHS
+		}
+	}
+	if n != 1 || def == nil {
+		return nil, false, false
+	}
+	x, nn, ok := f.NilTest(def)
+	if !ok {
+		return nil, false, false
+	}
+	return x, nn != neg, true
+}
+
 // ConstInt returns the constant integer value of e, if it has one.
 func (f *Func) ConstInt(e ast.Expr) (int64, bool) {
 	tv, ok := f.Info().Types[e]
